@@ -149,6 +149,7 @@ type SpecDB struct {
 	Opaque    map[string]bool
 	NoEffect  []string
 	Delegates map[string]string
+	Globals   []*GlobalInv
 }
 
 func NewSpecDB() *SpecDB {
@@ -189,6 +190,7 @@ func (db *SpecDB) Add(sf *SpecFile) error {
 	for k, v := range sf.Delegates {
 		db.Delegates[k] = v
 	}
+	db.Globals = append(db.Globals, sf.Globals...)
 	return nil
 }
 
